@@ -692,7 +692,7 @@ pub fn run(run: &Run) {
     run.section_exhaustive("preamble-cut-table", true, "role x kind x session-id width x cut offset 0..4 of the preamble, short (8 ms) and long (330 ms) pause between the pieces");
     prop_search(
         run,
-        Search { check: "streams", cases: run.tier.pick(1200, 8000), workers: 8, max_shrink_iters: 48 },
+        Search { check: "streams", cases: run.tier.pick(1200, 40000), workers: 8, max_shrink_iters: 48 },
         || case_strategy(max_streams),
         |c| match judge(|| exec(c), true, "C01:timeout") {
             Outcome::Pass { nontrivial, .. } => Outcome::pass_l(nontrivial, labels_of(c)),
